@@ -52,7 +52,7 @@ def make_rule(case):
 def np_profile(case):
     from socialchoicekit.profile_utils import StrictCompleteProfile, CompleteProfile, ValuationProfile
     if "V" in case:
-        A = np.array([[np.nan if x is None else float(x) for x in row] for row in case["V"]], dtype=float)
+        A = lay(np.array([[np.nan if x is None else float(x) for x in row] for row in case["V"]], dtype=float), case.get("layout"))
         return A, ValuationProfile.of(A)
     dt = {"int64": np.int64, "int32": np.int32, "float": float}[case.get("dtype", "int64")]
     A = np.array(case["P"], dtype=dt)
@@ -60,6 +60,10 @@ def np_profile(case):
         A = np.repeat(A, case["mults"], axis=0)
         if case.get("shuffle_seed") is not None:
             np.random.RandomState(case["shuffle_seed"]).shuffle(A)
+    A = lay(A, case.get("layout"))       # same ballots, another memory layout (column-major / strided view)
+    if case.get("wrap"):                 # the profile class the caller wrapped the ballots in (weak orders: the classes that admit ties)
+        import socialchoicekit.profile_utils as PU
+        return A, getattr(PU, case["wrap"]).of(A)
     if case["rule"] == "STV":
         return A, CompleteProfile.of(A)
     return A, StrictCompleteProfile.of(A)
